@@ -30,11 +30,11 @@ def reg(name, prop, case, level, cases, rule=RULE_WORLD, **kw):
     CHECKS[name] = d
 
 
-reg("C01", "C01", _faulted("C01"), "exploration", {"quick": 2500, "thorough": 40000},
+reg("C01", "C01", _faulted("C01"), "exploration", {"quick": 3000, "thorough": 70000},
     reach=["c01.d_kind_soc", "c01.d_kind_geo"])
-reg("C02", "C02", _faulted("C02"), "exploration", {"quick": 2500, "thorough": 40000})
-reg("C06", "C06", _faulted("C06"), "exploration", {"quick": 2000, "thorough": 30000})
-reg("C07", "C07", _faulted("C07"), "exploration", {"quick": 6000, "thorough": 40000})
+reg("C02", "C02", _faulted("C02"), "exploration", {"quick": 4000, "thorough": 120000})
+reg("C06", "C06", _faulted("C06"), "exploration", {"quick": 4000, "thorough": 100000})
+reg("C07", "C07", _faulted("C07"), "exploration", {"quick": 6000, "thorough": 150000})
 def _c08_on_timeout(seed, idx, tier):
     """A case hit the wall-clock watchdog: decide by counting steps (replayable), not by the clock."""
     return engines.faulted_case("C08", seed, idx, tier, step_cap=engines.STEP_CAP)
@@ -45,12 +45,12 @@ reg("C08", "C08", _faulted("C08"), "exploration", {"quick": 3000, "thorough": 50
     rule=RULE_WORLD + "; in addition, for one statement in 16 every reply-fault kind (NaN, +inf, -inf, 1e300) is "
     "injected at EVERY evaluation index, one at a time (cut_points_enumerated), and one world in 32 runs under a "
     "line-counting tracer with a cap of 5e6 cobyqa source lines between consecutive peer events (bounded progress)")
-reg("C05", "C05", _cut("C05"), "fault_enumeration", {"quick": 160, "thorough": 1500},
+reg("C05", "C05", _cut("C05"), "fault_enumeration", {"quick": 240, "thorough": 6000},
     rule=RULE_WORLD + "; for each sampled statement the budget maxfev=k is injected at EVERY k up to the tier's cap "
     "(and around nb_points) and maxiter=k at several k: cut_points_enumerated counts those runs")
-reg("C09", "C09", _cut("C09"), "fault_enumeration", {"quick": 240, "thorough": 1600},
+reg("C09", "C09", _cut("C09"), "fault_enumeration", {"quick": 240, "thorough": 7000},
     rule=RULE_WORLD + "; for each sampled statement a stop request (callback StopIteration at call k; target or "
     "feasibility tolerance first met at evaluation k) is injected at EVERY evaluation index k up to the tier's cap")
-reg("C20", "C20", _cut("C20"), "fault_enumeration", {"quick": 160, "thorough": 1200}, isolate=True, case_timeout=400,
+reg("C20", "C20", _cut("C20"), "fault_enumeration", {"quick": 160, "thorough": 4000}, isolate=True, case_timeout=400,
     rule=RULE_WORLD + "; counterfactual branching: for EVERY callback call k of the baseline the same world is re-run "
     "with StopIteration raised at call k and the result compared with what call k received")
